@@ -84,10 +84,29 @@ class LoopInfo:
     guards: Tuple[Tuple[Term, bool], ...]
 
 
+_KNOWN = None
+
+
+def known_functions():
+    """Functions of the package as it was when the rule tables were written.  Rules refer to these by name (call sites of
+    remove_pbc, read_neighbors, ...), so calls to them stay calls.  A function that is NOT in this list is a helper introduced
+    later (helper extraction is the commonest refactoring): its body is interpreted in place at the call site."""
+    global _KNOWN
+    if _KNOWN is None:
+        import os
+        try:
+            with open(os.path.join(os.path.dirname(os.path.abspath(__file__)), "known_functions.txt"), "r", encoding="utf-8") as f:
+                _KNOWN = {ln.strip() for ln in f if ln.strip()}
+        except OSError:
+            _KNOWN = set()
+    return _KNOWN
+
+
 class Interp:
     """Interpret one function body into terms + events."""
 
     MAX_UNROLL = 16
+    MAX_INLINE_DEPTH = 3
 
     def __init__(
         self,
@@ -120,6 +139,9 @@ class Interp:
         self._pending_guard = None
         self.falls_through = True
         self._dirty: set = set()
+        self._inlined = False
+        self._depth = 0
+        self._stack: Tuple[str, ...] = (fi.qual,)
         self._run()
 
     # ------------------------------------------------------------------ setup
@@ -143,9 +165,11 @@ class Interp:
 
     # ------------------------------------------------------------------ events
     def emit(self, kind: str, node: ast.AST, **data) -> Event:
+        if kind == "return" and self._inlined:
+            kind = "inl_return"          # a return of a helper interpreted in place: not a return of the analysed function
         ev = Event(kind, node, tuple(self._loopstack), tuple(self._guards), data, next(self._seq))
         self.events.append(ev)
-        if kind == "return":
+        if kind in ("return", "inl_return"):
             self.returns.append(ev)
         return ev
 
@@ -461,6 +485,9 @@ class Interp:
             return
         if isinstance(tgt, (ast.Tuple, ast.List)):
             n = len(tgt.elts)
+            # unpacking `None if eof else (a, b, ..)`: None cannot be unpacked, so the values come from the tuple arm
+            while v[0] == "phi" and NONE in (v[2], v[3]) and (v[3] if v[2] == NONE else v[2])[0] in ("tuple", "list", "phi"):
+                v = v[3] if v[2] == NONE else v[2]
             for k, e in enumerate(tgt.elts):
                 if isinstance(e, ast.Starred):
                     self.assign(e.value, ("elem", v, ("star", k)), stmt)
@@ -771,6 +798,11 @@ class Interp:
                 fname = ("dyn", t)
         else:
             fname = ("dyn", self.expr(f))
+        if isinstance(fname, str) and fname in self.pkg.functions and fname not in known_functions() \
+                and self._depth < self.MAX_INLINE_DEPTH and fname not in self._stack:
+            inl = self._inline_call(self.pkg.functions[fname], args, kwargs, n)
+            if inl is not None:
+                return inl
         term = self.fold_call(fname, args, kwargs)
         if self.track_alloc and term[0] == "call" and term[1:] == (fname, args, kwargs) and fname != "builtins.range":
             # every evaluated call expression denotes a distinct run-time object
@@ -788,6 +820,72 @@ class Interp:
                 self.env[f.value.id] = new
                 self.emit("assign", n, name=f.value.id, value=new)
         return term
+
+    def _inline_call(self, fi: FunctionInfo, args, kwargs, node) -> Optional[Term]:
+        """Interpret the body of a helper at its call site: parameters bound to the argument terms, events appended to the
+        caller's stream (inside the caller's loops and guards), its returns folded into one value."""
+        import ast as _ast
+        if any(isinstance(x, (_ast.Yield, _ast.YieldFrom)) for x in _ast.walk(fi.node)):
+            return None
+        params = list(fi.params)
+        env: Dict[str, Term] = {}
+        selfname = None
+        is_static = any(_ast.unparse(d) == "staticmethod" for d in fi.node.decorator_list)
+        if fi.cls is not None and params and not is_static:
+            if self.selfname is None:
+                return None
+            selfname = params[0]
+            env[selfname] = ("sym", self.selfname)
+            params = params[1:]
+        if any(a[0] == "star" for a in args) or any(k == "**" for k, _ in kwargs):
+            return None
+        for k, a in enumerate(args):
+            if k >= len(params):
+                return None
+            env[params[k]] = a
+        for k, v in kwargs:
+            if k not in params:
+                return None
+            env[k] = v
+        defaults = fi.defaults()
+        sub = Interp.__new__(Interp)
+        sub.track_alloc, sub.pkg, sub.fi, sub.mi = self.track_alloc, self.pkg, fi, fi.module
+        sub.bind, sub.assume, sub.unroll = {}, self.assume, self.unroll
+        sub.env = env
+        sub.selfname = selfname
+        sub.self_attrs = self.self_attrs
+        sub.events, sub.loops = self.events, self.loops
+        sub._loopstack, sub._guards = self._loopstack, self._guards
+        sub._uid, sub._seq = self._uid, self._seq
+        sub.returns, sub.notes = [], self.notes
+        sub._pending_guard, sub.falls_through, sub._dirty = None, True, self._dirty
+        sub._inlined, sub._depth, sub._stack = True, self._depth + 1, self._stack + (fi.qual,)
+        for p in params:
+            if p not in env:
+                if p in defaults:
+                    env[p] = sub.expr(defaults[p])
+                else:
+                    return None
+        depth0 = len(self._guards)
+        self.emit("inline_enter", node, callee=fi.qual)
+        n_g, n_l = len(self._guards), len(self._loopstack)
+        sub.exec_block(fi.node.body)
+        del self._guards[n_g:]
+        del self._loopstack[n_l:]
+        self.emit("inline_exit", node, callee=fi.qual)
+        rets = sub.returns
+        if not rets:
+            return NONE
+        result = rets[-1].data["value"]
+        for r in reversed(rets[:-1]):
+            extra = r.guards[depth0:]
+            conds = [c if pol else ("un", "not", c) for c, pol in extra]
+            if not conds:
+                result = r.data["value"]
+                continue
+            cond = conds[0] if len(conds) == 1 else ("bool", "and", tuple(conds))
+            result = ("phi", cond, r.data["value"], result)
+        return result
 
     def fold_call(self, fname: Any, args: Tuple[Term, ...], kwargs: Tuple[Tuple[str, Term], ...]) -> Term:
         if fname == "builtins.len" and len(args) == 1 and args[0][0] in ("tuple", "list", "dict", "set"):
